@@ -90,3 +90,37 @@ def outgoing_sequence_numbers(ds):
         assert old > MAX48 and ds._sequence_number_sending == old
         return
     assert n == old and n <= MAX48 and ds._sequence_number_sending == old + 1
+
+
+
+from contracts.cemi_common import AnyAPCI  # noqa: E402
+
+PLAIN_OUT = Obj(
+    CEMILData,
+    flags=FULL_FLAGS,
+    src_addr=Obj(IndividualAddress, raw=Int(0, 0xFFFF)),
+    dst_addr=Obj(GroupAddress, raw=Int(0, 0xFFFF)),
+    tpci=Const(TDataGroup()),
+    payload=Obj(AnyAPCI, enc=Bytes(min_len=2, max_len=255)),
+)
+
+
+@lemma("C17", params=dict(ds=DS, frame=PLAIN_OUT), stubs=APCI_STUBS + SECURE_DATA_STUBS)
+def a_sent_frame_uses_up_its_number_and_a_refused_one_changes_nothing(ds, frame):
+    """outgoing_cemi for a keyed group address, any counter state (also past the end): either the frame
+    leaves carrying exactly the stored number (at most 48 bit) and the stored number grows by one, or
+    DataSecureError is raised and the stored number is unchanged - in particular it never goes *down*, so a
+    number is never used twice and exhaustion is permanent."""
+    old = ds._sequence_number_sending
+    keyed = frame.dst_addr in ds._group_key_table
+    try:
+        out = ds.outgoing_cemi(frame)
+    except DataSecureError:
+        assert keyed and old > MAX48 and ds._sequence_number_sending == old
+        return
+    if not keyed:
+        assert out is frame and ds._sequence_number_sending == old
+        return
+    assert isinstance(out.payload, SecureAPDU)
+    assert int.from_bytes(out.payload.secured_data.sequence_number_bytes, "big") == old and old <= MAX48
+    assert ds._sequence_number_sending == old + 1
